@@ -38,7 +38,7 @@ def tol(x64, abs_terms, cond=0.0):
     return 5e-4 + 2e-5 * abs_terms + 2.4e-7 * cond
 
 
-def assign_all(b, desc, values, mode):
+def assign_all(b, desc, values, mode, buffers=None):
     """mode: 'auto' (auto-update on) | 'off' (off, then full update) | 'targeted' (off, then a targeted
     update of the three totals only)."""
     import jax.numpy as jnp
@@ -49,10 +49,18 @@ def assign_all(b, desc, values, mode):
         if it["t"] != "var":
             continue
         v = np.asarray(values[it["name"]], np.float64)
-        if it["name"] in b.transformed:
-            b.transformed[it["name"]].value = jnp.asarray(sm.to_unconstrained(sm.bij_kind(it), v), b.ft)
+        tgt = b.transformed[it["name"]] if it["name"] in b.transformed else b.objs[it["name"]]
+        new = np.asarray(sm.to_unconstrained(sm.bij_kind(it), v) if it["name"] in b.transformed else v,
+                         np.float64 if b.ft == jnp.float64 else np.float32)
+        if buffers is not None:
+            # the caller keeps one NumPy buffer per variable and refills it in place for every assignment
+            buf = buffers.get(it["name"])
+            if buf is None or buf.shape != new.shape:
+                buf = buffers[it["name"]] = np.empty(new.shape, new.dtype)
+            buf[...] = new
+            tgt.value = buf
         else:
-            b.objs[it["name"]].value = jnp.asarray(v, b.ft)
+            tgt.value = jnp.asarray(new, b.ft)
     if mode == "off":
         m.update()
     elif mode == "targeted":
@@ -124,17 +132,39 @@ def case_program(case, res):
                 res.skip("default bijector differs from the oracle's table")
                 res.nontriv(("skip", case["idx"]))
                 return
-    b = sm.build(desc, x64=x64, initial=vals0)
+    # in a third of the cases the model is put together after rejected node re-assignments between its variables
+    mistakes = []
+    plain = [it["name"] for it in desc["items"] if it["t"] == "var" and not it.get("transform")]
+    if case["idx"] % 3 == 0 and len(plain) >= 2:
+        # (a variable whose assignment was rejected is not used as a source afterwards: liesel detaches the
+        # target's own node from it before it rejects, so that a later assignment *of* that node is accepted, which
+        # would be a different model and not a mistake)
+        targets = set()
+        for _ in range(int(rng.integers(1, 4))):
+            a, c = (int(i) for i in rng.choice(len(plain), 2, replace=False))
+            if plain[c] in targets or plain[a] in targets:
+                continue
+            targets.add(plain[a])
+            mistakes.append((plain[a], plain[c], ["dist", "value"][int(rng.integers(2))]))
+        w["rejected_assignments_before_build"] = mistakes
+    b = sm.build(desc, x64=x64, initial=vals0, mistakes=mistakes)
+    if mistakes:
+        res.ev("rejected_node_assignments_before_build", b.n_rejected)
     judge(res, b, desc, vals0, x64, "at build", w)
     # flipped per_obs twin
     names = [it["name"] for it in desc["items"] if it["t"] in ("var", "freedist")]
     flip = {n for n in names if rng.random() < 0.5} or {names[0]}
     b2 = sm.build(desc, x64=x64, flip_per_obs=flip, initial=vals0)
     K = case["k"]
+    # (float32 cases only: with x64 on, TFP treats the np.float64 *scalars* that NumPy arithmetic on 0-d buffers produces
+    # as Python floats and computes with them in float32; a TFP conversion rule, nothing liesel decides)
+    buffers = {} if case["idx"] % 2 == 1 and not x64 else None
     for j in range(K):
         vals = sm.initial_values(desc, rng)
         mode = ["auto", "off", "targeted"][j % 3]
-        assign_all(b, desc, vals, mode)
+        assign_all(b, desc, vals, mode, buffers)
+        if buffers is not None:
+            res.ev("assignments_from_reused_buffers")
         g1 = judge(res, b, desc, vals, x64, f"after assignment #{j} (update mode {mode})", w)
         assign_all(b2, desc, vals, ["off", "targeted", "auto"][j % 3])
         g2 = {"log_prob": float(np.sum(b2.model.log_prob)), "log_lik": float(np.sum(b2.model.log_lik)),
